@@ -39,6 +39,12 @@ func TestWindowedRandom(t *testing.T) {
 			}
 			infl := r.between(0, 30)
 			drop := r.chance(1, 6)
+			if r.chance(1, 10) {
+				// the delegate's estimate moves without the wrapper (an explicit set, or the delegate being sampled directly)
+				del.mu.Lock()
+				del.est = r.between(1, 50)
+				del.mu.Unlock()
+			}
 			before := len(del.Samples)
 			wl.OnSample(int64(T)*period, int64(rtt), infl, drop)
 			out := []J{}
